@@ -48,7 +48,14 @@ def pipe(ctx):
     atoms = [('isinstance(%s, _T)' % ov, isinst)]
     effects = [('%s = _V' % it_p, lambda e, s, tr: tr.append(src(e['_V'])))]
     it = absint.Interp(fn, atoms, effects)
-    it.skip = lambda st: isinstance(st, ast.Expr)
+    it.skip = lambda st: isinstance(st, (ast.Expr, ast.Assign))
+    loop_bound = {ov} | set(t.id for n in ast.walk(lp[0]) if isinstance(n, ast.Assign) for t in n.targets if isinstance(t, ast.Name))
+    for n in ast.walk(lp[0]):
+        if isinstance(n, (ast.GeneratorExp, ast.Lambda)):
+            used = set(x.id for x in ast.walk(n) if isinstance(x, ast.Name) and isinstance(x.ctx, ast.Load)) & (loop_bound - {it_p})
+            r.check(not used, 'no lazily evaluated expression captures the loop variable', n, construct=M + 'apply_query_operators', key='late-binding',
+                    msg='`%s` is evaluated lazily but refers to %s, which the operator loop rebinds: when the pipeline is finally consumed every stage '
+                        'sees the LAST operator (late binding), so all but one filter are ignored' % (src(n)[:70], sorted(used)))
     want = {'WhereEqual': '%s(%s)' % (ov, it_p), 'OrderBy': '%s(%s)' % (ov, it_p), 'dict': 'WhereEqual(%s)(%s)' % (ov, it_p),
             'callable': 'filter(%s, %s)' % (ov, it_p)}
     for kind, w in want.items():
